@@ -591,6 +591,35 @@ func init() {
 						}
 					}
 				}
+				if k == 2 {
+					// raw (unescaped) characters: for every lead byte C2..F4 the first and the last
+					// code point that starts with it - the scanners classify lead bytes through
+					// hand-written case lists and tables
+					seen := map[byte]bool{}
+					add := func(cp rune) {
+						ch := string(cp)
+						lits = append(lits, `"`+ch+`"`, `"ab`+ch+`"`, `"`+ch+`cdefghij"`, `"x`+ch+ch+`y"`)
+					}
+					var prev rune = -1
+					for cp := rune(0x80); cp <= 0x10FFFF; cp++ {
+						if cp >= 0xD800 && cp <= 0xDFFF {
+							continue
+						}
+						lead := string(cp)[0]
+						if !seen[lead] {
+							seen[lead] = true
+							if prev >= 0 {
+								add(prev) // the last code point of the previous lead byte
+							}
+							add(cp)
+						}
+						prev = cp
+						if cp >= 0x800 && cp&0x3f == 0 {
+							cp += 0x3e // lead bytes change at multiples of 64 at the earliest
+						}
+					}
+					add(0x10FFFF)
+				}
 				// longer literals so that escapes straddle the 8-byte window and the stream chunks
 				r := c.RNG(1)
 				for i := 0; i < 24; i++ {
